@@ -179,8 +179,8 @@ theorem commit_on_buffer_limit (cstr sstr dis : Bool) (pol : Option Policy) (max
   · exact hc
   · rfl
 
-/- Full statement includes negative limits; the unchanged code panics there (known finding F20):
-   `bufferForRetryLocked(0, op, nil)` commits and then calls the nil cleanup.  The model commits. -/
+/-- Negative limits: the very first `bufferForRetryLocked(0, op, nil)` exceeds the limit and commits
+    (the nil cleanup is skipped since /repo f1630c1; before that NewStream panicked there: F33). -/
 theorem negative_limit_commits_at_once (cstr sstr dis : Bool) (pol : Option Policy) (maxBuf : Int) (thr : Option Throttler)
     (script : List Beh) (hm : maxBuf < 0) : (fresh cstr sstr dis pol maxBuf thr script).cs.committed = true := by
   unfold fresh St.opNew
